@@ -27,12 +27,14 @@ pub fn zname(b: &[u8]) -> String { let mut v = vec![1u8]; v.extend_from_slice(b)
 fn z<T: std::fmt::Display>(v: T) -> String { verif_harness::coq_z(v) }
 
 pub fn addr_term(bytes: &[u8]) -> String {
-    match get_shelley_address(bytes) {
-        Some(sa) => {
+    // pallas-addresses directly (not the validator's get_shelley_address / is_byron_address wrappers)
+    match Address::from_bytes(bytes) {
+        Ok(Address::Shelley(sa)) => {
             let p = match sa.payment() { ShelleyPaymentPart::Key(h) => format!("(PKey {})", zh(h.as_ref())), ShelleyPaymentPart::Script(h) => format!("(PScript {})", zh(h.as_ref())) };
             format!("(AShelley {} {})", sa.network().value(), p)
         }
-        None => if is_byron_address(bytes) { "AByron".into() } else { "AOther".into() },
+        Ok(Address::Byron(_)) => "AByron".into(),
+        _ => "AOther".into(),
     }
 }
 fn assets_term<Q, F: Fn(&Q) -> String>(m: &std::collections::BTreeMap<pallas_primitives::PolicyId, std::collections::BTreeMap<pallas_primitives::AssetName, Q>>, f: F) -> String {
@@ -105,6 +107,11 @@ fn out_parts(o: &MultiEraOutput, conway_tx: bool) -> (bool, Vec<u8>, String, u64
         MultiEraOutput::Byron(x) => (true, vec![], format!("(VCoin {})", x.amount), 0),
         _ => (true, vec![], "(VCoin 0)".into(), 0),
     }
+}
+/// value size in words of every output, as the era validator measures it
+pub fn output_words(metx: &MultiEraTx) -> Vec<u64> {
+    let cw = matches!(metx, MultiEraTx::Conway(_));
+    metx.outputs().iter().map(|o| out_parts(o, cw).3).collect()
 }
 pub fn tout_term(o: &MultiEraOutput, conway_tx: bool) -> String {
     let (legacy, addr, val, words) = out_parts(o, conway_tx);
